@@ -396,11 +396,35 @@ class _rewrite_captured_vars(ast.NodeTransformer):
                     return as_literal(value)
 
                 defaults = getattr(v, "__defaults__", None) or ()
+                kw_defaults = getattr(v, "__kwdefaults__", None) or {}
+
+                # A default that is itself a function goes by the name it was written with - if
+                # that name still stands for it. If not, the helper stays a call by name.
+                try:
+                    names_now = global_getclosurevars(v)
+                    names_now = {**names_now.builtins, **names_now.globals, **names_now.nonlocals}
+                except Exception:
+                    names_now = None
+                written_defaults = list(zip(defaults, lm.args.defaults[-len(defaults) :])) if (
+                    len(defaults) > 0 and len(defaults) == len(lm.args.defaults)
+                ) else []
+                written_defaults += [
+                    (kw_defaults[a.arg], d)
+                    for a, d in zip(lm.args.kwonlyargs, lm.args.kw_defaults)
+                    if a.arg in kw_defaults and d is not None
+                ]
+                if names_now is not None and any(
+                    callable(value)
+                    and isinstance(d, ast.Name)
+                    and names_now.get(d.id, value) is not value
+                    for value, d in written_defaults
+                ):
+                    return node
+
                 if len(defaults) == len(lm.args.defaults):
                     lm.args.defaults = [
                         at_definition(value, d) for value, d in zip(defaults, lm.args.defaults)
                     ]
-                kw_defaults = getattr(v, "__kwdefaults__", None) or {}
                 lm.args.kw_defaults = [
                     at_definition(kw_defaults[a.arg], d) if a.arg in kw_defaults and d else d
                     for a, d in zip(lm.args.kwonlyargs, lm.args.kw_defaults)
